@@ -405,6 +405,7 @@ impl Scenario for C20 {
                 *slot2.lock().unwrap() = Some(out);
             });
             stats.absorb_proc(&r);
+            stats.probe_max("max_decisions_in_one_run", r.decisions);
             stats.probe("os_entropy_requests_served_from_the_run_seed", r.entropy_calls);
             stats.fault("fresh_hash_keys_per_process");
             stats.fault(&format!("num_threads_{}", t));
